@@ -343,8 +343,14 @@ func (l *Listener) Close() error {
 	l.closed = true
 	w := l.waiters
 	l.waiters = nil
+	q := l.q
+	l.q = nil
 	l.mu.Unlock()
 	l.S.MakeRunnable(w...)
+	// connections still in the accept queue are reset, as a kernel does when the listening socket closes
+	for _, c := range q {
+		c.Close()
+	}
 	return nil
 }
 
